@@ -47,7 +47,7 @@ Proof.
        long_mul w a b = (firstn k out ++ fst (long_mul_loop w (skipn k a) b (skipn k out) ov),
                          snd (long_mul_loop w (skipn k a) b (skipn k out) ov))).
   - intros k [[[out ov] carry] i] (-> & Hk & Hlen & Fout & Heq) Hc.
-    rewrite ltb_of_nat in Hc. apply Nat.ltb_lt in Hc. split; [exact Hc|].
+    cond_true_in Hc. split; [exact Hc|].
     match goal with |- context [while_loop fuel ?c ?bd ?s0] =>
       assert (W : exists e, while_loop fuel c bd s0 = Done e /\
                             mul_inner_post w n b k (nth k a 0) ov (firstn k out) (skipn k out) e)
@@ -55,7 +55,7 @@ Proof.
     { apply (while_count n (mul_inner_inv w n b k (nth k a 0) ov (firstn k out) (skipn k out))) with (k := 0%nat).
     + (* one inner iteration *)
       intros j [[[out' ov'] carry'] jz] (-> & Hj & -> & Hlen' & Fout' & Hcar & Hpre & Hrow) Hcj.
-      rewrite ltb_of_nat in Hcj. apply Nat.ltb_lt in Hcj. split; [exact Hcj|].
+      cond_true_in Hcj. split; [exact Hcj|].
       rewrite ?(Z.add_comm (Z.of_nat j) (Z.of_nat k)). rewrite <- Nat2Z.inj_add, ltb_of_nat.
       rewrite (skipn_nth_cons b j) in Hrow by lia.
       destruct (Nat.ltb_spec (k + j) n) as [Hin|Hout].
@@ -97,7 +97,7 @@ Proof.
               rewrite firstn_all2 by (rewrite skipn_length; lia). reflexivity.
     + (* inner loop exit: j = n *)
       intros j [[[out' ov'] carry'] jz] (-> & Hj & -> & Hlen' & Fout' & Hcar & Hpre & Hrow) Hcj.
-      rewrite ltb_of_nat in Hcj. apply Nat.ltb_ge in Hcj. assert (j = n) by lia. subst j.
+      cond_false_in Hcj. assert (j = n) by lia. subst j.
       unfold mul_inner_post.
       split; [exact Hlen'|]. split; [exact Fout'|]. split; [exact Hpre|].
       exists false. split; [|rewrite orb_false_r; reflexivity].
@@ -130,7 +130,7 @@ Proof.
         destruct (long_mul_loop w (skipn (S k) a) b (skipn (S k) out') true) as [r o2].
         cbn [fst snd]. rewrite <- app_assoc. reflexivity.
   - intros k [[[out ov] carry] i] (-> & Hk & Hlen & Fout & Heq) Hc.
-    rewrite ltb_of_nat in Hc. apply Nat.ltb_ge in Hc. assert (k = n) by lia. subst k.
+    cond_false_in Hc. assert (k = n) by lia. subst k.
     rewrite Heq. rewrite (skipn_all2 a) by lia. cbn [long_mul_loop fst snd].
     rewrite firstn_all2 by lia. rewrite app_nil_r. reflexivity.
   - split; [reflexivity|]. split; [lia|]. split; [apply repeat_length|].
